@@ -77,14 +77,14 @@ class PBuilt(Built):
         for alias, impl in d.get("overloads", []):
             if isinstance(impl, dict) and impl.get("k") == "ovfn":
                 g = self._fn(impl, [self.node(p) for p in impl["params"]], True)
-                ov = ds.overload(alias)(g)
+                ov = ds.overload(sem.alias_arg(alias))(g)
                 ov.__qualname__ = impl["name"]
             else:
                 obj = self.node(impl)
                 if isinstance(obj, Dataset):
-                    ds.overload(alias)(obj)
+                    ds.overload(sem.alias_arg(alias))(obj)
                 else:
-                    for a in (alias if isinstance(alias, list) else [alias]):
+                    for a in sem.alias_list(alias):
                         ds.register(a, obj)
         return ds
 
